@@ -146,6 +146,11 @@ func (p *FSM) Open(_ <-chan struct{}) (uint64, error) {
 	var dbdir string
 	if rp.IsNewRun(p.fs, p.dirname) {
 		dbdir = filepath.Join(p.dirname, randomDir)
+		// Create the DB directory first, it is made durable together with the updating file so that
+		// 'current' never names a directory that could be lost in a crash.
+		if err := p.fs.MkdirAll(dbdir, 0o755); err != nil {
+			return 0, err
+		}
 		if err := rp.SaveCurrentDBDirName(p.fs, p.dirname, randomDir); err != nil {
 			return 0, err
 		}
